@@ -4,7 +4,7 @@
 //!   vh eval <cfg.yaml>...                 cases on stdin  ("<cfg index>\t<escaped code>"), one result line per case
 //!   vh seq <alphabet file> <maxlen> <threads> <cfg.yaml>...
 //!                                         every token sequence of length 1..=maxlen: no panic + entry-list preconditions
-//!   vh c12prefix <maxlen> <threads> <cfg.yaml>   every message over the 12-symbol alphabet (4 framings) vs. the reference rule
+//!   vh c12prefix <maxlen> <threads> <cfg.yaml>   every message over the 16-symbol alphabet (4 framings) vs. the reference rule
 //!   vh c12near <threads> <cfg.yaml>       boundary digit strings and all their single-character edits
 //!   vh c12token <lo> <hi> <threads> <cfg.yaml> <cfg_structured.yaml>   inserted token for every N in lo..=hi
 //!
@@ -561,7 +561,8 @@ fn c12_case(m: &str, cfg: &Config, fails: &mut Vec<C12Fail>, nfail: &mut u64, pr
     }
 }
 
-const SIGMA12: [&str; 13] = ["[", "]", "r", "e", "f", ":", " ", "0", "1", "9", "٣", "x", "+"];
+// (tab and no-break space: white space that is not the one blank of the token; "R": letter case)
+const SIGMA12: [&str; 16] = ["[", "]", "r", "e", "f", ":", " ", "0", "1", "9", "٣", "x", "+", "\t", "\u{a0}", "R"];
 
 fn c12_emit(cases: u64, present: u64, nfail: u64, fails: &[C12Fail])
 {
